@@ -138,9 +138,42 @@ def run(ctx):
         for _ in range(3):
             plans.append(tuple(rng.randrange(len(insts)) for _ in range(rng.randint(4, 6))))
         validator = SequentialPlanValidator(environment=problem.environment)
-        for plan in plans:
+        edited = False
+        plans_round2 = []
+        if hp is None and len(plans) > 4:
+            plans_round2 = plans[:1] + rng.sample(plans[1:], min(6, len(plans) - 1))
+        for plan in plans + [None] + plans_round2:
+            if plan is None:
+                # --- history: EDIT the problem object (one initial value) and validate again with the SAME validator
+                # instance; the answers must be those for the edited problem, not for the one validated before
+                cands = [(f, a) for (f, a), v in zip(ser.gfluents, s0) if v is not None and not f.type.is_user_type()]
+                if not cands or not plans_round2:
+                    break
+                f, a = rng.choice(cands)
+                old_v = s0[ser.gfluents.index((f, a))]
+                if f.type.is_bool_type():
+                    new_v = not old_v
+                else:
+                    lo, hi = f.type.lower_bound, f.type.upper_bound
+                    new_v = old_v + 1 if (hi is None or old_v + 1 <= hi) else old_v - 1
+                    if lo is not None and new_v < lo:
+                        break
+                    if f.type.is_int_type():
+                        new_v = int(new_v)
+                try:
+                    problem.set_initial_value(ser.fexp(f, a), new_v)
+                    s0 = ser.read_state(UPSequentialSimulator(problem).get_initial_state())
+                except Exception:  # noqa  (e.g. the edited initial state violates an invariant: not a usable edit)
+                    break
+                edited = True
+                stats["edited_problems"] = stats.get("edited_problems", 0) + 1
+                pi = 100000 + pi
+                pre.append("Definition P%d : problem := %s.\nDefinition M%d : metric := %s." % (pi, ser.render(), pi, ser.render_metric(metric)))
+                continue
             ais = [ActionInstance(insts[j][0], insts[j][1]) for j in plan]
-            rec = {"problem": pi, "plan": [(insts[j][0].name, [str(x) for x in insts[j][1]]) for j in plan], "raised": None}
+            rec = {"problem": pi, "plan": [(insts[j][0].name, [str(x) for x in insts[j][1]]) for j in plan], "raised": None,
+                   "after_edit_same_validator": edited}
+            stats["plans_after_edit"] = stats.get("plans_after_edit", 0) + edited
             try:
                 res = validator.validate(problem, SequentialPlan(ais, problem.environment))
                 valid = res.status == ValidationResultStatus.VALID
